@@ -29,4 +29,41 @@ CLAIMS = {
              'rounding claims. A failed proof is turned into a VIOLATION only with a concrete counterexample state on the extracted '
              'expression, otherwise ANALYSIS-BROKEN. ' + BASE,
         technique='guard-interval analysis + abstract interpretation (congruence/linear-form x interval domain) + expression-tree rule'),
+    'C01': dict(
+        text='Structural necessary conditions, over all paths of the compiled library, of "a decoder never hands back a wrong source '
+             'symbol": layout agreement of control blocks with the views generic code casts them to, dispatch agreement, duplicate '
+             'suppression dominating every state update, equivalence of the two submission APIs, completion implies all k slots filled '
+             '(monotone), and a closed classification of every store into a symbol table.',
+        design_ref='DESIGN.md section 6 C01; rules R-LAYOUT, R-DISPATCH, R-DUP, R-SETAVAIL, R-COMPLETE, R-SRCSTORE, R-SRCPTR',
+        note='Decides only these structural clauses; does NOT decide that decoded bytes are right (value-level). ' + BASE,
+        technique='layout comparison from debug info; dominance/guard rules over the CFG; value-origin classification of stores'),
+    'C02': dict(
+        text='Both RS decoders run the matrix decode only with >= k distinct symbols, return FAILURE and never mark completion with fewer, '
+             'trigger decoding when the k-th distinct symbol is counted, through either submission API; the GF tables are the documented '
+             'fields. Structural necessary conditions of the MDS property.',
+        design_ref='DESIGN.md section 6 C02; rules R-RS-THRESHOLD, R-DUP, R-SETAVAIL, R-COMPLETE, R-TABLES, R-POLY',
+        note='Does NOT decide that the generator is MDS or that inversion succeeds (value-level). n <= 2^m-1 is not enforced by the '
+             'GF(2^m) codec: recorded as a known finding of C09. ' + BASE,
+        technique='dominance/guard rules on the counters and the decode call; constant-data comparison'),
+    'C04': dict(
+        text='Mechanism only: duplicate suppression dominates every state update of the iterative decoder; completion is reported exactly '
+             'when the scan over the k source slots finds none empty and never reverts; layout of the LDPC block matches the generic view.',
+        design_ref='DESIGN.md section 6 C04; rules R-DUP, R-COMPLETE, R-LAYOUT, R-RETSET',
+        note='First sentence of the claim: mechanism only. The heart of C04 (available set = peeling closure for every order) is a '
+             'fixpoint statement that static analysis in reach cannot decide and is NOT claimed. ' + BASE,
+        technique='dominance/guard rules; layout comparison'),
+    'C10': dict(
+        text='One rule per sentence: finish_decoding returns OK only on complete paths and FAILURE only after a negative completion test '
+             '(error edges removed by an inter-procedural error-edge analysis); submission routines return only OK; completion predicate '
+             'discipline; received source pointers are stored and copied out as given.',
+        design_ref='DESIGN.md section 6 C10; rules R-FINISH-TRUTH, R-RETSET, R-COMPLETE, R-RS-THRESHOLD, R-SRCPTR, R-SRCSTORE',
+        note='Decides status/completion agreement per path; does not decide that the counters/tables are right on every history. ' + BASE,
+        technique='path rules over the CFG with error edges removed; return-set analysis; dominance of flag stores'),
+    'C11': dict(
+        text='Call-site contract at every call of the decoded-source-symbol callback (arguments, guard, ESI < k, result used as '
+             'destination and table entry, NULL result cannot reach an error-only edge) and a closed classification showing that every '
+             'decoded-source store goes through the callback-or-allocate choice into an empty slot.',
+        design_ref='DESIGN.md section 6 C11; rules R-CB, R-SRCSTORE, R-COMPLETE',
+        note='"Exactly one call per decoded symbol" is argued from once-per-site + empty-slot guards + monotone tables. ' + BASE,
+        technique='call-site rules with value-flow of the callback result; store classification'),
 }
